@@ -380,7 +380,19 @@ int fiber_sleep(uint32_t seconds, uint32_t useconds) {
     return FIBER_SUCCESS;
   }
 
-
+#if defined(__linux__)
+  {
+    // timer expirations are only read when a thread runs out of fibers. bring
+    // timer_trigger_count up to date first, otherwise ticks that piled up
+    // while every thread was busy are credited to this sleeper and it wakes
+    // early (or immediately)
+    uint64_t timer_count = 0;
+    if (fibershim_read(timer_fd, &timer_count, sizeof(timer_count)) ==
+        sizeof(timer_count)) {
+      fiber_event_wake_sleepers(fiber_manager_get(), timer_count);
+    }
+  }
+#endif
   const uint64_t sleep_ms = seconds * 1000 + useconds / 1000 + 1;  // ms
   waiter_el_t wake_info = {};
 
